@@ -252,7 +252,7 @@ func (fc *fnCtx) lemmaApply(c *clause, ev *evalCtx) string {
 		if _, given := m[induct]; !given {
 			concl = fmt.Sprintf("(forall ((%s Int)) (=> (>= %s 0) %s))", induct, induct, concl)
 		} else {
-			concl = fmt.Sprintf("(=> (>= %s 0) %s)", m[induct].String(), concl)
+			concl = fmt.Sprintf("(=> (>= %s 0) %s)", fc.evalFormula(m[induct], ev), concl)
 		}
 	}
 	if len(as) == 0 {
